@@ -9,6 +9,7 @@ import (
 	"fmt"
 	"os"
 	"path/filepath"
+	"sort"
 	"strings"
 	"time"
 
@@ -141,9 +142,21 @@ func (s *srvSpec) start() *srvRun {
 			os.Mkdir(filepath.Join(r.root, d), 0o755)
 		}
 		fixed := time.Unix(1_000_000_000, 0)
-		for n, c := range s.files {
+		var fnames []string
+		for n := range s.files {
+			fnames = append(fnames, n)
+		}
+		sort.Strings(fnames) // creation order decides the order in which tmpfs lists a directory
+		for _, n := range fnames {
+			c := s.files[n]
+			os.MkdirAll(filepath.Dir(filepath.Join(r.root, n)), 0o755)
 			os.WriteFile(filepath.Join(r.root, n), []byte(c), 0o644)
 			os.Chtimes(filepath.Join(r.root, n), fixed, fixed) // attributes in replies must not depend on when the execution ran
+		}
+		for n := range s.files {
+			if d := filepath.Dir(n); d != "." {
+				os.Chtimes(filepath.Join(r.root, d), fixed, fixed)
+			}
 		}
 		for _, d := range s.dirs {
 			os.Chtimes(filepath.Join(r.root, d), fixed, fixed)
